@@ -104,9 +104,38 @@ fn gen_c05_long(seed: u64, idx: u64) -> Scenario {
     }
 }
 
+/// Blocks whose serialised samples exceed 64 KiB .. 768 KiB, from a source without a length hint.
+fn gen_c05_big(seed: u64, idx: u64) -> Scenario {
+    let mut rng = Rng::for_case(seed, "C05.big", idx);
+    let channels = *rng.pick(&[3usize, 5, 6, 7, 8, 2]);
+    let bps = *rng.pick(&[24usize, 24, 20, 16]);
+    let block = *rng.pick(&[4096usize, 10_923, 16_384, 21_846, 32_767]);
+    let (nfull, tail) = (1 + rng.usize_below(2), rng.usize_below(block));
+    let audio = mixed_cost_audio(&mut rng, channels, bps, block, nfull, tail);
+    let mut cfg = gen::gen_config(&mut rng, &ConfigOpts { multithread: Some(true), min_max_parameter: 8 });
+    cfg.subframe_coding.qlpc.lpc_order = cfg.subframe_coding.qlpc.lpc_order.min(8);
+    cfg.block_size = block;
+    Scenario {
+        audio: Arc::new(audio),
+        cfg,
+        block,
+        workers: Some(*rng.pick(&[1usize, 2, 4])),
+        env: None,
+        policy: if idx % 2 == 0 { Policy::None } else { Policy::Yield },
+        faults: vec![],
+        mode: if rng.flip() { FillMode::Int } else { FillMode::Bytes },
+        hint: false,
+        label: format!("big#{idx}"),
+        short_reads: 0,
+    }
+}
+
 pub fn gen_c05(seed: u64, sub: &str, idx: u64) -> Scenario {
     if sub == "long" {
         return gen_c05_long(seed, idx);
+    }
+    if sub == "big" {
+        return gen_c05_big(seed, idx);
     }
     let mut rng = Rng::for_case(seed, &format!("C05.{sub}"), idx);
     let bps = *rng.pick(&gen::WIDTHS);
@@ -490,11 +519,12 @@ pub fn run_c05(ctx: &Ctx) -> i32 {
     supervise_sub(ctx, "sched", ctx.tier.pick(1600, 120_000), &agg);
     supervise_sub(ctx, "env", ctx.tier.pick(104, 1300), &agg);
     supervise_sub(ctx, "long", ctx.tier.pick(2, 32), &agg);
+    supervise_sub(ctx, "big", ctx.tier.pick(12, 200), &agg);
     let out = std::mem::take(&mut agg.lock().unwrap().out);
     let ooo = out.stats.get("runs_with_out_of_order_completion").copied().unwrap_or(0);
     let fin = Finish {
         level: "exploration",
-        rule: "every scenario (generated input with alternating cheap/expensive blocks x configuration x W in {1,2,3,4,8,16,32} or FLACENC_WORKERS in 13 strings x 8 schedule policies injected at the hook's scheduling points; plus 'long' scenarios of more than 65536 frames) runs in a supervised child, one multi-thread call at a time: bytes(single) == bytes(multi) == bytes(frame-by-frame assembly) == bytes(multi, repeated); the totally ordered event log is checked offline for T1 buffer ownership alternation, T2 frame numbers 0,1,2.. each encoded and pushed exactly once, T3 stop tokens, T4 hasher FIFO/no-loss, T5 all helpers exited before return; distinct = distinct interleavings (hash of the log projected to (role, site))",
+        rule: "every scenario (generated input with alternating cheap/expensive blocks x configuration x W in {1,2,3,4,8,16,32} or FLACENC_WORKERS in 13 strings x 8 schedule policies injected at the hook's scheduling points; plus 'long' scenarios of more than 65536 frames and 'big' scenarios with blocks of 64-768 KiB raw from a source without a length hint) runs in a supervised child, one multi-thread call at a time: bytes(single) == bytes(multi) == bytes(frame-by-frame assembly) == bytes(multi, repeated); the totally ordered event log is checked offline for T1 buffer ownership alternation, T2 frame numbers 0,1,2.. each encoded and pushed exactly once, T3 stop tokens, T4 hasher FIFO/no-loss, T5 all helpers exited before return; distinct = distinct interleavings (hash of the log projected to (role, site))",
         assumptions: vec!["schedules are sampled by real threads + injected delays at the library's own suspension points; not all interleavings are visited".into(), "deadlock is decided by /proc state (all tasks in futex wait, no CPU time or context switch for 2 s), never by a deadline".into()],
         exhaustive: None,
         floors: vec![("runs in which a frame completed before a lower-numbered one".into(), ooo, 10)],
